@@ -63,6 +63,13 @@ def obligations(tier, seed):
             obs.append(Ob(name=f"C04-FIX/{sk}.{on}", source=src, pct=900, timeout=1000,
                           meta={"desc": f"skeleton {sk}, options {OPTSETS[on]}: print(parse(formatted)) == formatted, line for line; second parse same content",
                                 "functions": ["PrettyPrinter._format", "Parser.parse", "MapfileTransformer"], "stubs": ["hole lexer"]}))
+    # the expression normal form is a fixed point: an operand that already is one parenthesised group is not wrapped again, for every
+    # balanced operand over ( ) a " ' backslash (the group lemma of C10, whose harness asserts exactly that)
+    from checks import C10
+    for o in C10.obligations(tier, seed):
+        if o.name.startswith("C10-BUILD/expression.") and o.name.endswith(".K6"):
+            o.name = o.name.replace("C10-BUILD/", "C04-GROUP/")
+            obs.append(o)
     for L in ((2, 4) if tier == "quick" else (2, 3, 4, 5, 6)):
         cs = chars("c", L)
         src = ESC + harness("h", cs, conj([f"okc({n})" for n, _ in cs]), ESC_BODY.format(S=chr_expr("c", L)))
